@@ -21,9 +21,14 @@ ASSUMPTIONS = [
 ]
 
 ENDPOINTS = [(1, "in"), (2, "out"), (3, "in"), (4, "in"), (4, "out")]
-TABLE = (G.foreign_table()
-         + [dict(k="xin", ep=e, n=n, ack=a) for e in (1, 4) for n in (1, 8, 9) for a in (1, 1, 0)]
-         + [dict(k="out", ep=e, n=8, flip=0) for e in (2, 4)] * 2
+TABLE = ([dict(k="xin", ep=e, n=n, ack=a) for e in (1, 4, 4) for n in (1, 8, 9) for a in (1, 1, 0)]
+         + [dict(k="in", ep=e, ack=a) for e in (1, 4, 4) for a in (1, 0)]
+         + [dict(k="in", ep=3, ack=a) for a in (1, 1, 1, 1, 0, 0)]
+         + [dict(k="out", ep=e, n=n, flip=0) for e in (2, 4, 4) for n in (0, 1, 5, 8, 8)]
+         + [dict(k="out", ep=e, n=3, flip=1) for e in (2, 4, 4)]
+         + [dict(k="ping", ep=2), dict(k="ping", ep=4)]
+         + [dict(k="feed", ep=e, n=n, last=l) for e in (1, 4) for n, l in ((2, 0), (8, 0), (17, 1))]
+         + [dict(k="sig", v=0xBEEF), dict(k="sig", v=0x0102), dict(k="sof"), dict(k="idle", n=4), dict(k="idle", n=25)]
          # tokens that carry an endpoint's number but not its direction, or no endpoint's number at all
          + [dict(k="out", ep=1, n=3, flip=0), dict(k="ping", ep=1), dict(k="in", ep=2, ack=1), dict(k="out", ep=3, n=2, flip=0),
             dict(k="ping", ep=3), dict(k="in", ep=5, ack=1), dict(k="out", ep=6, n=1, flip=0)])
@@ -47,10 +52,10 @@ class NonInterference(Sub):
     name = "isolation"
     budget = {"quick": 600, "thorough": 10000}
     shrink_budget = 120
-    rule = ("histories of 2..20 interleaved items over five non-control endpoints (same number/different direction "
+    rule = ("histories of 2..16 interleaved items over five non-control endpoints (same number/different direction "
             "included): IN with and without host ACK, feeds, OUT in and out of sequence, zero-length and FIFO-filling "
             "OUTs, PINGs, tokens naming an endpoint's number with the wrong direction or an absent number, SOFs, GET_* "
-            "and must-STALL control transfers; the full history is simulated once, then once per endpoint e with every "
+            "and must-STALL control transfers; the full history is simulated once, then once for each of up to three endpoints e (generated choice, endpoints with traffic first) with every "
             "transaction not addressed to e replaced by idle time of equal length; e's responses (handshake / data "
             "PID / payload, per transaction), and its delivered OUT stream must be identical in both runs, and tokens "
             "naming no existing endpoint side must stay unanswered; a closing transaction per endpoint exposes the "
@@ -63,7 +68,8 @@ class NonInterference(Sub):
     def strategy(self):
         top = st.one_of(st.sampled_from(TABLE), st.sampled_from(TABLE), st.sampled_from(TABLE), st.sampled_from(TABLE),
                         st.sampled_from(CTRL))
-        return st.fixed_dictionaries(dict(items=long_lists(top, min_size=2, max_size=20, average=10), **G.env_fields()))
+        return st.fixed_dictionaries(dict(items=long_lists(top, min_size=2, max_size=16, average=9), pick=st.integers(0, 4),
+                                          **G.env_fields()))
 
     def run(self, case):
         b = G.Builder(self.rig.descriptors)
@@ -91,7 +97,10 @@ class NonInterference(Sub):
             if tg in ENDPOINTS and t["i"] < body_len:
                 counts[tg] = counts.get(tg, 0) + 1
         labels = set()
-        for e in ENDPOINTS:
+        # up to three endpoints per case are re-run alone (those with traffic first; `pick` rotates the choice)
+        order = ENDPOINTS[case["pick"]:] + ENDPOINTS[:case["pick"]]
+        chosen = ([e for e in order if counts.get(e)] + [e for e in order if not counts.get(e)])[:3]
+        for e in chosen:
             keep = (lambda op, e=e: op["op"] == "idle" or target(op) == e)
             alone = H.execute("full", b.prog, judge=False, keep=keep, durations=full.durations, **env)
             if alone.violation is not None:
